@@ -39,6 +39,30 @@ EM7 = {"smt.auto_config": False, "smt.mbqi": False, "smt.random_seed": 7}
 PLAN = [(0, EM, 0.3), (1, EM, 0.25), (2, EM, 0.2), (2, {}, 0.15), (0, EM7, 0.1)]
 
 
+_JOBS = []
+
+
+class _LazySmt:
+    def __init__(self, o):
+        self.o = o
+        self.cache = {}
+
+    def __getitem__(self, tier):
+        if self.o.expect_sat and tier != 0:
+            return None
+        if tier not in self.cache:
+            self.cache[tier] = obligation_smt2(self.o, tier)
+        return self.cache[tier]
+
+
+def _solve_job(i):
+    o, timeout_ms = _JOBS[i]
+    try:
+        return _solve((_LazySmt(o), timeout_ms, o.expect_sat, getattr(o, "hint", None)))
+    except Exception as e:       # pragma: no cover
+        return "error", 0.0, repr(e)
+
+
 def _solve(args):
     smts, timeout_ms, expect_sat = args[:3]
     hint = args[3] if len(args) > 3 else None
@@ -49,8 +73,12 @@ def _solve(args):
         plan = [(0, {}, 0.5), (0, EM, 0.5)] if expect_sat else PLAN
         if hint is not None and not expect_sat:
             # ordering hint from the committed ledger (the tier that discharged this obligation last time): try it first
-            first = [p for p in plan if p[0] == hint]
-            plan = first + [p for p in plan if p[0] != hint]
+            # ("2d" = tier 2 with the solver's default configuration)
+            if hint == "2d":
+                first = [p for p in plan if p[0] == 2 and not p[1]]
+            else:
+                first = [p for p in plan if p[0] == hint]
+            plan = first + [p for p in plan if p not in first]
         for tier, cfg, share in plan:
             if smts[tier] is None:
                 continue
@@ -82,19 +110,17 @@ def discharge(obls, timeout_s=60, procs=None, retry=True):
         jobs.append(o)
     if not jobs:
         return 0.0
-    payload = []
-    for o in jobs:
-        if o.expect_sat:
-            payload.append(((obligation_smt2(o, 0), None, None), int(timeout_s * 1000), True))
-        else:
-            payload.append((tuple(obligation_smt2(o, t) for t in (0, 1, 2)), int(getattr(o, "timeout", timeout_s) * 1000), False,
-                            getattr(o, "hint", None)))
+    # the SMT-LIB text of an obligation is produced in the worker (forked: it sees the parent's terms), and only for the
+    # tiers that are actually tried - serialising three tiers of every obligation in the parent dominated the run time
+    global _JOBS
+    _JOBS = [(o, int((timeout_s if o.expect_sat else getattr(o, "timeout", timeout_s)) * 1000)) for o in jobs]
     if len(jobs) == 1 or procs == 1:
-        results = [_solve(p) for p in payload]
+        results = [_solve_job(i) for i in range(len(jobs))]
     else:
         ctx = mp.get_context("fork")
         with ctx.Pool(min(procs, len(jobs))) as pool:
-            results = pool.map(_solve, payload, chunksize=1)
+            results = pool.map(_solve_job, range(len(jobs)), chunksize=1)
+    _JOBS = []
     total = 0.0
     for o, (res, secs, reason) in zip(jobs, results):
         o.seconds = secs
